@@ -142,7 +142,14 @@ func checkStruct(c structCase) error {
 		return pbt.Errf("Fqdn(%q)=%q want %q", s, got, wantFq)
 	}
 	// CanonicalName: only ASCII letters lower-cased, root appended. Spellings with raw octets
-	// above 0x7f are not the library's presentation form; generators never produce them.
+	// above 0x7f are not the library's presentation form (CanonicalName maps through Unicode): the
+	// structural helpers and Fqdn/IsFqdn get them, CanonicalName does not - see DESIGN.md section 7.4.
+	for i := 0; i < len(s); i++ {
+		if s[i] >= 0x80 {
+			pbt.Class("raw-8-bit-text")
+			return nil
+		}
+	}
 	if got := dns.CanonicalName(s); got != lowerASCII(wantFq) {
 		return pbt.Errf("CanonicalName(%q)=%q want %q", s, got, lowerASCII(wantFq))
 	}
@@ -179,7 +186,7 @@ func genStruct(t *rapid.T) structCase {
 	// Raw octets >= 0x80 are NOT the library's presentation form (it writes \DDD); they are only
 	// given to the structural helpers, never to CanonicalName (which maps through Unicode and is
 	// documented for presentation-form names) – see DESIGN.md §7.4.
-	rawHigh := false
+	rawHigh := !canonical && gen.Rarely(t, 2)
 	for _, l := range n {
 		switch {
 		case canonical:
@@ -194,7 +201,7 @@ func genStruct(t *rapid.T) structCase {
 }
 
 // bounded-exhaustive: all names of at most n units over the unit alphabet
-var units = []string{"a", "A", "1", `\\`, `\.`, `\065`, `\046`, `\000`}
+var units = []string{"a", "A", "1", `\\`, `\.`, `\065`, `\046`, `\000`, "é"}
 
 func eachSmallName(maxUnits int, emit func(structCase)) {
 	emit(structCase{FQ: true}) // root
